@@ -4,6 +4,7 @@ import (
 	"bytes"
 	"errors"
 	"fmt"
+	"reflect"
 	"runtime/debug"
 	"strings"
 
@@ -148,12 +149,18 @@ func verdictOf(f ErrFacts) Verdict {
 func (w *World) provideOpts(f *Func, info *dig.ProvideInfo) []dig.ProvideOption {
 	var o []dig.ProvideOption
 	if f.OptName != "" {
+		if f.OptNoise {
+			o = append(o, dig.Name("overridden"))
+		}
 		o = append(o, dig.Name(f.OptName))
 	}
 	if f.OptGroup != "" {
 		g := f.OptGroup
 		if f.OptFlatten {
 			g += ",flatten"
+		}
+		if f.OptNoise {
+			o = append(o, dig.Group("overridden"))
 		}
 		o = append(o, dig.Group(g))
 	}
@@ -164,7 +171,9 @@ func (w *World) provideOpts(f *Func, info *dig.ProvideInfo) []dig.ProvideOption 
 		}
 		o = append(o, dig.As(as...))
 	}
-	if f.Export {
+	if f.OptNoise {
+		o = append(o, dig.Export(!f.Export), dig.Export(f.Export))
+	} else if f.Export {
 		o = append(o, dig.Export(true))
 	}
 	if f.Callback {
@@ -172,6 +181,9 @@ func (w *World) provideOpts(f *Func, info *dig.ProvideInfo) []dig.ProvideOption 
 	}
 	if info != nil {
 		o = append(o, dig.FillProvideInfo(info))
+	}
+	if f.LocPC && f.Cat >= 0 && len(catFns) > 1 {
+		o = append(o, dig.LocationForPC(reflect.ValueOf(catFns[(f.Cat+1)%len(catFns)]).Pointer()))
 	}
 	return o
 }
@@ -255,8 +267,15 @@ func (r *Run) Exec(i int) *OpResult {
 	case OpProvide:
 		f := &r.H.Funcs[op.Fn]
 		var info *dig.ProvideInfo
+		var before InfoObs
+		reused := false
 		if f.Info {
 			info = &dig.ProvideInfo{ID: infoSentinel}
+			if f.ReuseInfo && w.lastPInfo != nil {
+				// the struct an earlier accepted Provide filled
+				info, reused = w.lastPInfo, true
+				before = InfoObs{ID: int(info.ID), Inputs: inputsStr(info.Inputs), Outputs: outputsStr(info.Outputs)}
+			}
 		}
 		fv := w.FnValue(op.Fn)
 		opts := w.provideOpts(f, info)
@@ -269,6 +288,12 @@ func (r *Run) Exec(i int) *OpResult {
 		if info != nil {
 			res.Info = &InfoObs{Touched: info.ID != infoSentinel || info.Inputs != nil || info.Outputs != nil,
 				ID: int(info.ID), Inputs: inputsStr(info.Inputs), Outputs: outputsStr(info.Outputs)}
+			if reused {
+				res.Info.Touched = res.Info.ID != before.ID || !eqStrExact(res.Info.Inputs, before.Inputs) || !eqStrExact(res.Info.Outputs, before.Outputs)
+			}
+			if err == nil && !facts.Escaped {
+				w.lastPInfo = info
+			}
 		}
 		if err == nil && !facts.Escaped {
 			if w.HomeOf == nil {
@@ -370,3 +395,15 @@ func Execute(h *History) *Run {
 
 // Events returns the events logged during op i.
 func (r *Run) Events(i int) []Event { return r.W.Log[r.Res[i].EvFrom:r.Res[i].EvTo] }
+
+func eqStrExact(a, b []string) bool {
+	if len(a) != len(b) {
+		return false
+	}
+	for i := range a {
+		if a[i] != b[i] {
+			return false
+		}
+	}
+	return true
+}
